@@ -195,7 +195,9 @@ CHECKS["C08"] = dict(
          "address in none of its blocks - including a sibling's block that starts exactly one past the end of an own block or ends directly "
          "before one (half-open comparison, no adjacency hypothesis); try_deallocate of pools and collections on foreign memory returns false "
          "with the state unchanged and on own memory is exactly deallocate + true; a fallback_allocator of any nesting depth sends every "
-         "release to the sub-allocator that served the allocation with the same call shape (corollary of the C09 routing theorem). Tied by "
+         "release to the sub-allocator that served the allocation with the same call shape (corollary of the C09 routing theorem); memory_pool_collection (Props/C08Coll): under the C01 "
+         "collection invariant try_deallocate_node returns true for every node the caller holds and keeps the invariant, and returns false with the state unchanged for every pointer "
+         "inside a block of another allocator. Tied by "
          "correspondence of pool/collection traces with foreign pointers in adjacent sibling blocks, of fallback compositions, and of "
          "try_deallocate probes on memory_stack / iteration_allocator<1..5> (live memory of every iteration, block boundaries, a sibling stack).",
     note="partial: 'handed out' is approximated by 'inside a held block' - the library cannot distinguish a live node from a free node of its "
